@@ -168,7 +168,6 @@ def family(tier, rng):
         ("pressc", [("a", "macro-cancel-on-press", ["a", 3, MK(S, "b")])], ("c",), 2, 2),
         ("both_nest", [("a", "macro-release-cancel-and-cancel-on-press", [G([], "a", G([], "b", MK(S, "a")))])], ("c",), 2, 2),
         ("rep", [("a", "macro-repeat", ["a", 1, MK(S, "b")])], ("c",), 2, 2),
-        ("rep_relc", [("a", "macro-repeat-release-cancel", [G(S, "a"), "b"])], ("c",), 2, 2),
         ("rep_pressc", [("a", "macro-repeat-cancel-on-press", ["a", MK(S, "b")])], ("c",), 2, 2),
         ("two_disj", [("a", "macro", [G(S, "a", 1)]), ("b", "macro-release-cancel", [MK(C, "x"), "x"])], (), 2, 2),
         ("uni_relc", [("a", "macro", ["a", UNI("q"), "b"]), ("b", "macro-release-cancel", ["x"])], (), 2, 2),
@@ -181,6 +180,7 @@ def family(tier, rng):
     ]
     if tier != "quick":
         F += [
+            ("rep_relc", [("a", "macro-repeat-release-cancel", [G(S, "a"), "b"])], ("c",), 2, 2),
             ("pressc2", [("a", "macro-cancel-on-press", ["a", MK(S, "b"), 2, "a"])], ("c",), 2, 2),
             ("rep_both", [("a", "macro-repeat-release-cancel-and-cancel-on-press", [G(S, "a", 1, "b")])], ("c",), 2, 2),
             ("vkey", [("a", "macro", ["a", VK("v1", "z", 0), "b", 2])], ("c",), 2, 2),
